@@ -5,6 +5,7 @@ import Kvass.Driver.Store
 import Kvass.Driver.Proxy
 import Kvass.Driver.Disc
 import Kvass.Driver.Explore
+import Kvass.Driver.Hash
 
 open Kvass.Driver
 
@@ -26,4 +27,5 @@ def main (args : List String) : IO UInt32 := do
   | ["proxy"] => loop stdin Proxy.handle; return 0
   | ["disc"] => loop stdin Disc.handle; return 0
   | ["explore"] => loop stdin Explore.handle; return 0
+  | ["hash"] => loop stdin Hash.handle; return 0
   | _ => IO.eprintln "usage: driver <engine>"; return 2
